@@ -370,9 +370,14 @@ func (i *Domain) approximateStamp(
 	if err = r.Close(); err != nil {
 		return TimeStampApproximation{}, err
 	}
-	if r, err = iter.OpenReader(ctx); err != nil {
+	prevR, err := iter.OpenReader(ctx)
+	if err != nil {
 		return TimeStampApproximation{}, err
 	}
+	// r is released by the caller once the stamp is resolved: point it at the reader
+	// that was just acquired (instead of the one closed above) so that it is the one
+	// that gets released.
+	*r = *prevR
 	lowerTS, err := readStamp(r, iter.Size()+lowerTSByteOffset)
 	return Between(lowerTS, upperTS), err
 }
